@@ -69,6 +69,7 @@ pub fn run(ctx: &mut Ctx) {
             // perturbations, all on the refusing path
             let nflip = if ctx.quick() { 12 } else { 160 };
             for j in 0..nflip { let bit = if ctx.quick() { (j * 13 + k * 7 + m as usize) % 160 } else { j }; emit_server(ctx, "proof bit flipped", m, ss, &u, key, &flip(&good, bit), cs); }
+            for (w, _) in near_misses(&mut rng, &good) { emit_server(ctx, "proof near miss (cancelling / confined differences)", m, ss, &u, key, &w, cs); }
             emit_server(ctx, "client seed differs", m, ss, &u, key, &good, cs ^ (1 << rng.below(32)));
             emit_server(ctx, "server seed differs", m, ss ^ (1 << rng.below(32)), &u, key, &good, cs);
             if cs != ss { emit_server(ctx, "seeds swapped", m, cs, &u, key, &good, ss); }
@@ -105,6 +106,13 @@ pub fn run(ctx: &mut Ctx) {
                     Some(Err((c, s))) if c == bad && s == want => {}
                     _ => ctx.fail("bitflip", det(&format!("proof with bit {} flipped not refused with (presented, expected) payload", bit))),
                 }
+                if k % 4 == 0 { for (w, lab) in near_misses(&mut rng, &p) {
+                    let mut bad = [0u8; 20]; bad.copy_from_slice(&w);
+                    match server(m, &ss.to_le_bytes(), &u, key, bad, cs) {
+                        Some(Err((c, s))) if c == bad && s == want => {}
+                        _ => ctx.fail("near_miss", det(&format!("wrong proof {} ({}) not refused with (presented, expected) payload", hex(&bad), lab))),
+                    }
+                } }
                 if cs != ss { if let Some(Ok(())) = server(m, &cs.to_le_bytes(), &u, key, p, ss) { ctx.fail("seed_order", det("proof accepted with the two seeds swapped")); } }
                 let mut k2 = key; k2[rng.below(40) as usize] ^= 1 << rng.below(8);
                 if let Some(Ok(())) = server(m, &ss.to_le_bytes(), &u, k2, p, cs) { ctx.fail("key_binding", det("proof accepted under a different session key")); }
